@@ -378,6 +378,23 @@ theorem fetch_read_source_correct (index : List (Bytes × Idx)) (file seq : Byte
   · rw [fetchByRid_eq_model, (fetch_known_rid index rid start stop hr).1]; rfl
   · rw [read_eq]; exact h
 
+open RbV.Thm.GenSrcIdxFa in
+/-- **Translated `fetch_all_by_rid` followed by translated `read` returns the whole sequence** of record `rid` — the
+interval it stores is `[0, idx.len)` taken from the `.fai` entry, and that is exactly the record's sequence; for every
+well-formed file, every chunk schedule, whatever was fetched or read before (session 5). -/
+theorem fetch_all_read_source_correct (index : List (Bytes × Idx)) (file seq : Bytes) (rid : Nat)
+    (sched : Nat → Nat) (s0 : St) (seq0 : Bytes) (fuel : Nat) (fi0 : Option Gen.SrcIdxFa.IndexRecord) (a0 b0 : Option Nat)
+    (hr : rid < index.length) (wf : WellFormed file index[rid].2 seq)
+    (hs : ∀ k, 0 < sched k) (h64 : index[rid].2.lB < 2 ^ 64) (hfit : pos index[rid].2 0 < 2 ^ 64)
+    (hfuel : file.length < fuel) :
+    ∃ fi a b s', Gen.SrcIdxFa.fetchAllByRid (toRecs index) fi0 a0 b0 rid = .ok (.ok (), fi, a, b) ∧
+      Gen.SrcIdxFa.read (fillBufOp sched) consumeOp (seekOp file) s0 fi a b seq0 fuel = .ok (.ok (), s', seq) := by
+  obtain ⟨s', h⟩ := read_source_correct file seq index[rid].2 0 index[rid].2.len sched s0 seq0 fuel wf
+    (Nat.zero_le _) (Nat.le_refl _) hs h64 hfit hfuel
+  refine ⟨some (toRec index[rid].2), some 0, some index[rid].2.len, s', ?_, ?_⟩
+  · rw [fetchAllByRid_eq_model, (fetch_known_rid index rid 0 0 hr).2]; rfl
+  · rw [read_eq, h, wf.len_eq]; simp
+
 /-! ## `read_into_iter` / `read_iter` translated from the source text (session 6, genleft)
 
 `RbV/Gen/SrcIdxFaIter.lean`; proofs `RbV/Thm/GenSrcIdxFaIter.lean`.  The iterator struct carries the ghost field `buf_cap` =
